@@ -493,6 +493,12 @@ struct Emitter {
           } else if (C->isIntegralOrEnumerationType()) {
             J.attribute("w", (int64_t)Ctx.getTypeSize(C));
             J.attribute("u", C->isUnsignedIntegerOrEnumerationType());
+            if (const EnumType *ET = C->getAs<EnumType>()) {
+              const EnumDecl *ED = ET->getDecl();
+              std::string en = ED->getName().str();
+              if (en.empty()) if (auto *TD = ED->getTypedefNameForAnonDecl()) en = TD->getName().str();
+              J.attribute("en", en);
+            }
           } else if (const RecordType *RT = C->getAs<RecordType>()) {
             J.attribute("rec", recName(RT->getDecl()));
           } else if (const ConstantArrayType *AT = Ctx.getAsConstantArrayType(C)) {
